@@ -411,6 +411,35 @@ def gen_deep(r, i):
     return {"kind": "history", "i": i, "tree": tree, "lookups": lookups, "etc": [], "spine_dev": 1}
 
 
+def gen_rootdots(r, i):
+    """`.../x` with a multi-component suffix that exists under exactly ONE ancestor of the target directory:
+    the file-system root "/", a real ancestor between "/" and the scratch root, the scratch root, a middle
+    directory, the nearest one, the target directory itself.  Nothing is written outside the scratch tree."""
+    def f():
+        spec = gen_spec(r, rich=False)
+        return {"dev": 1, "file": spec if "stmts" in spec else {"stmts": [["imp", r.choice(KNOWN_POOL)]], "ident_form": False}}
+    tree = {"dev": 1, "dir": {"home": {"dev": 1, "dir": {}}, "rootdb.py": f(),
+                              "dbs": {"dev": 1, "dir": {"x.py": f(), "sub": {"dev": 1, "dir": {"z.py": f()}}}},
+                              "a": {"dev": 1, "dir": {"adb.py": f(), "adir": {"dev": 1, "dir": {"q.py": f()}},
+                                                      "b": {"dev": 1, "dir": {"bdb.py": f(), "c": {"dev": 1, "dir": {"cdb.py": f()}}}}}}}}
+    only = {"fsroot": ["{ROOTREL}/rootdb.py", "{ROOTREL}/dbs", "{ROOTREL}/a/adb.py", "{ROOTREL}/a/b/c/cdb.py"],
+            "spine": ["{ROOTREL1}/rootdb.py", "{ROOTREL2}/dbs/sub", "{ROOTREL1}/a/b/bdb.py"],
+            "scratch": ["rootdb.py", "dbs/x.py", "a/adb.py", "a/b/bdb.py", "dbs"],
+            "middle": ["adb.py", "adir/q.py", "b/bdb.py", "adir"],
+            "nearest": ["bdb.py", "c/cdb.py"],
+            "target": ["cdb.py"]}
+    lookups = []
+    for _ in range(r.randint(1, 3)):
+        kinds = r.sample(sorted(only), r.randint(1, 3))
+        parts = [".../" + r.choice(only[k]) for k in kinds]
+        if r.random() < .25:
+            parts.insert(r.randint(0, len(parts)), r.choice(["-", "./rootdb.py", "{ROOT}/dbs/x.py"]))
+        lookups.append({"cwd": r.choice(["", "a", "a/b"]), "home": "{ROOT}/home",
+                        "target": "{ROOT}/a/b/c" + r.choice(["/t.py", "/t.py", "", "/no/such/t.py"]),
+                        "env": [":".join(parts), None, None]})
+    return {"kind": "history", "i": i, "tree": tree, "lookups": lookups, "etc": [], "spine_dev": r.choice([1, 1, 1, 1, 9])}
+
+
 def gen_partition(r, i):
     """Device boundaries on purpose: a chain of directories with a database at every level, st_dev
     chosen per level (1-2-1 patterns, boundary at the scratch root, boundary above a missing target)."""
@@ -469,8 +498,10 @@ def gen_cases(ctx, n):
     for i in range(n):
         r = cm.rng(ctx.seed, "c12", i)
         k = i % 20
-        if k < 11:
+        if k < 10:
             cases.append(gen_history(r, i))
+        elif k < 11:
+            cases.append(gen_rootdots(r, i))
         elif k < 12:
             cases.append(gen_index_view(r, i))
         elif k < 13:
@@ -525,7 +556,14 @@ def materialize(node, path, devmap, files, root=None):
 
 
 def subst(s, root):
-    return None if s is None else s.replace("{ROOT}", root)
+    """{ROOT} = the scratch root; {ROOTREL}, {ROOTREL1}, {ROOTREL2} = the scratch root relative to "/", to its
+    first-level and to its second-level real ancestor (for `.../x` entries that resolve only against those)."""
+    if s is None:
+        return None
+    comps = root.strip("/").split("/")
+    for k, tag in ((2, "{ROOTREL2}"), (1, "{ROOTREL1}"), (0, "{ROOTREL}")):
+        s = s.replace(tag, "/".join(comps[min(k, len(comps) - 1):]))
+    return s.replace("{ROOT}", root)
 
 
 def resolve_lookups(case, root):
@@ -1011,6 +1049,7 @@ def compare(ctx, cases, impl, index, model):
                 ctx.bump("hit_via_dir_key" if k1 else "hit_via_file_list_key")
         ctx.bump("history_len_%d" % len(kinds))
         fs = FS(c, im["root"])
+        lk_env = {id(st): lk["env"][0] for lk, st in zip(c["lookups"], im["cached"])}
         if any(v[0] == "l" for v in fs.raw.values()):
             ctx.bump("tree_with_symlinks")
         for s in im["cached"]:
@@ -1019,6 +1058,9 @@ def compare(ctx, cases, impl, index, model):
                 if any(fs.resolve(f, False) != f for f in s["files"]):
                     ctx.bump("loaded_through_symlink")
                 mx = max([len(f) for f in s["files"]] or [0])
+                env0 = lk_env.get(id(s))
+                if env0 and ("{ROOTREL}" in env0) and s["files"]:
+                    ctx.bump("loaded_via_tripledots_against_fs_root")
                 if mx > 255:
                     ctx.bump("loaded_path_longer_than_1024" if mx > 1024 else "loaded_path_longer_than_255")
             if s["kind"] != "err" and s["forget"]:
@@ -1032,7 +1074,7 @@ def compare(ctx, cases, impl, index, model):
 def run(ctx):
     cm.check_anchors(ctx, ANCHORS)
     n = int(os.environ.get("VERIF_C12_N", (400 if ctx.quick else 4000) * getattr(ctx, "scale", 1)))
-    ctx.coverage["rule"] = ("cases from one seeded PRNG: 5% same-known-imports/different-forget-of-derived-entries histories + 5% deep trees with absolute paths of 300-1500 characters + 55% lookup histories (55% of the trees with symbolic links: to directories and files, relative/absolute, dangling, looping) + 5% cwd/HOME-exchange histories + 10% device-boundary chains (1-4 lookups; cwd, HOME, target and the three "
+    ctx.coverage["rule"] = ("cases from one seeded PRNG: 5% same-known-imports/different-forget-of-derived-entries histories + 5% deep trees with absolute paths of 300-1500 characters + 5% `.../x` entries with multi-component suffixes that exist under exactly one ancestor ('/' itself, a real ancestor of the scratch root, the scratch root, a middle directory, the nearest, the target directory) + 50% lookup histories (55% of the trees with symbolic links: to directories and files, relative/absolute, dangling, looping) + 5% cwd/HOME-exchange histories + 10% device-boundary chains (1-4 lookups; cwd, HOME, target and the three "
                             "environment variables change between lookups) in generated trees with .pyflyby files/dirs at several "
                             "levels, hidden/__pycache__/unsafe entries, device boundaries; 15% in-memory compositions (+ __or__); "
                             "5% _find_etc_dirs trees; thorough adds all sequences up to length 4 over 5 queries on 2 trees; "
